@@ -21,9 +21,9 @@ def run(ctx):
            timeout=max(tmo, 200), confirm='confirm_html', desc='to_xml() likewise'),
         Ob('nonstr_detail', 'ob_nonstr_detail', '', packed=[('kind', 7), ('n', 12)], timeout=tmo,
            desc='non-text details (int, None, bytes, list, dict, float, bool) take the repr fallback and are escaped'),
-        Ob('formats', 'ob_formats', '', packed=[('code_i', NC), ('mime_i', 9), ('det_i', 4), ('given_code', 2, 'bool')],
+        Ob('formats', 'ob_formats', '', packed=[('code_i', NC), ('mime_i', 9), ('det_i', 9), ('given_code', 2, 'bool')],
            cells=[('code%d' % c, [{'code_i': c}]) for c in range(NC)], timeout=tmo, confirm='confirm_formats',
-           desc='every exported error class x 9 mimetypes x 4 details x default/overridden code: status == code, class code == http.HTTPStatus by name, '
+           desc='every exported error class x 9 mimetypes x 9 details (incl. 4-5 KB texts with markup characters around the 4 KB mark) x default/overridden code: status == code, class code == http.HTTPStatus by name, '
                 'adapt(): body == to_<fmt>(), Content-Type agrees, JSON parses with the 4 fields, XML well formed, markup escaped'),
         Ob('negotiation', 'ob_negotiation', '', packed=[('code_i', NC), ('choice', 6), ('which', 2), ('pre_i', 6)],
            cells=[('code%d' % c, [{'code_i': c}]) for c in range(NC)], timeout=tmo, confirm='confirm_negotiation',
